@@ -43,7 +43,7 @@ func (check) BudgetSeconds(tier string) int {
 	return 300
 }
 
-var coreMenu = []string{"j2t.Do(bad-middle)", "t2j.Do(cut-middle)", "j2t.HTTPConv.Do(fallback,missing-required)", "j2t.HTTPConv.Do(traceback,missing-required)", "j2t.HTTPConv.Do(traceback,ok)", "thrift.MarshalTo(Small,missing-required)", "j2t.HTTPConv.Do(no-body)", "j2t.HTTPConv.Do(fallback,write-default)", "j2t.Do(nested)", "t2j.Do(nested)", "j2t.HTTPConv.Do", "t2j.HTTPConv.Do", "p2j.Do(nested)", "thrift.Load+Marshal(pooled)", "thrift.MarshalTo(Small)"}
+var coreMenu = []string{"j2t.Do(bad-middle)", "t2j.Do(cut-middle)", "j2t.HTTPConv.Do(fallback,missing-required)", "j2t.HTTPConv.Do(traceback,missing-required)", "j2t.HTTPConv.Do(traceback,ok)", "thrift.MarshalTo(Small,missing-required)", "j2t.HTTPConv.Do(no-body)", "j2t.HTTPConv.Do(fallback,write-default)", "j2t.Do(nested)", "t2j.Do(nested)", "j2t.HTTPConv.Do", "t2j.HTTPConv.Do", "p2j.Do(nested)", "p2j.Do(int64str,nested)", "thrift.Load+Marshal(pooled)", "thrift.MarshalTo(Small)"}
 
 type groupDef struct {
 	name string
@@ -355,7 +355,21 @@ var solos map[int]solo
 
 func soloOf(f *fixture, r *core.Result, i int) solo {
 	if solos == nil {
+		// the reference results of ALL ops are taken at once, the succeeding ops first: a failing call that leaves
+		// something behind in a shared converter must not be able to shape the reference result of a later op
 		solos = map[int]solo{}
+		first := 0
+		for k, n := range opNames {
+			if n == "j2t.Do(flat)" {
+				first = k
+			}
+		}
+		for k := first; k < len(f.ops); k++ {
+			soloOf(f, r, k)
+		}
+		for k := 0; k < first; k++ {
+			soloOf(f, r, k)
+		}
 	}
 	if s, ok := solos[i]; ok {
 		return s
